@@ -736,6 +736,8 @@ fn wide_cases(st: &mut Stats, wd: &Watchdog, w: usize, workers: usize, sizes: &[
                     for _ in 0..objs {
                         perms = perms.into_iter().flat_map(|p| (0..objs).filter(|x| !p.contains(x)).map(|x| { let mut q = p.clone(); q.push(x); q }).collect::<Vec<_>>()).collect();
                     }
+                    // beyond 8193 edges: two drop orders only (every case builds the whole list on four flavours)
+                    let perms: Vec<Vec<usize>> = if k > 8193 { vec![(0..objs).collect(), (0..objs).rev().collect()] } else { perms };
                     for perm in perms {
                         wd.tick();
                         let mut remaining: Vec<usize> = (0..objs).collect();
